@@ -30,6 +30,15 @@ type aliaser interface {
 }
 
 // toExpr removes surrounding delimiters
+// aliasAbsolute returns an alias for an import that is required by the generated code itself (e.g. "fmt"),
+// aliases defined by the user must not be applied to such imports.
+func aliasAbsolute(a aliaser, import_ string) string {
+	if aa, ok := a.(interface{ AliasAbsolute(string) string }); ok {
+		return aa.AliasAbsolute(import_)
+	}
+	return a.Alias(import_)
+}
+
 func toExpr(expr string) (string, bool) {
 	runes := []rune(expr)
 	if len(runes) < 2 {
